@@ -165,7 +165,17 @@ func (s *Session) execTwoStore(slot int) (obs, viol string) {
 		return "ok", ""
 	}
 	twoStoreSeq++
-	st2 := NewRecStore(fmt.Sprintf("rec-other-%d", twoStoreSeq)) // a prefix names a store: a fresh one each time
+	// a prefix names a store: a fresh one each time — every second time one that differs from the
+	// first store's only by what a path cleaner would remove (still a different name)
+	prefix2 := fmt.Sprintf("rec-other-%d", twoStoreSeq)
+	if twoStoreSeq%2 == 0 {
+		v := []string{"%s/", "./%s", "%s/.", "%s//"}[(twoStoreSeq/2)%4]
+		prefix2 = fmt.Sprintf(v, s.Store.Prefix)
+		if twoStoreSeq >= 8 {
+			prefix2 = fmt.Sprintf(v, fmt.Sprintf("rec-other-%d", twoStoreSeq-1)) // near an earlier second store
+		}
+	}
+	st2 := NewRecStore(prefix2)
 	cfg := s.remoteConfig()
 	cfg.StoreImmutablePartsWith = st2
 	m, err := mast.NewRoot(createOpts(s.Cfg)).LoadMast(s.ctx, cfg)
